@@ -248,3 +248,78 @@ Proof.
   apply erun_iq_named; auto.
   intros l x Hs Hr Hn. exact (fast_step_shape xv c H2 l x Hs Hr H3 Hok Hn).
 Qed.
+
+(* ------------------------------------------------------------------ both engines at once (for props/Properties_C08.v) *)
+
+(* which selection a step performs: exactly one for the named event it dequeues, none for an event otherwise *)
+Definition selection_spec (xv : ex_variant) (c : fchart) (ms0 : lstate -> xstate -> lstate * xstate)
+           (sel : lstate -> xstate -> option event -> lstate * xstate * N)
+           (step : lstate -> xstate -> lstate * xstate * N) (l : lstate) (x : xstate) : Prop :=
+  match dequeues l x with
+  | DeqInt e => step l x = sel l (emit (TEv (ev_name e)) (pop_iq x)) (Some e)
+  | DeqExt e => step l x = sel l (emit (TEv (ev_name e)) (pop_eq x)) (Some e)
+  | DeqExtEmpty => step l x = (if l_cancelled l then set_tlf_cancelled l else l, pop_eq x,
+                               if l_cancelled l then RC_CANCELLED else RC_IDLE)
+  | DeqNone =>
+      step l x = (l, x, RC_FINISHED) \/
+      step l x = (set_completed l, emit TComplE (completion_exec xv c (l_cfg l) (rev (l_cfg l)) (emit TComplB x)), RC_FINISHED) \/
+      step l x = (fst (ms0 l x), snd (ms0 l x), RC_MICROSTEPPED) \/
+      step l x = sel l x None \/
+      step l x = (l, x, RC_IDLE) \/
+      step l x = (upd_flags l (l_spont l) true, emit TStable x, RC_MACROSTEPPED) \/
+      step l x = (set_tlf_cancelled l, x, RC_CANCELLED)
+  end.
+
+Lemma engine_external_only_when_quiescent_lemma (lv : lg_variant) (xv : ex_variant) (c : fchart) (acts : list eact) :
+  Forall (fun r => takes_external r \/ external_popped r ->
+            quiescent_at (large_esel lv c) r /\ large_none_enabled c (l_cfg (r_l r)) (x_store (r_x r)))
+         (steps_of (elog c (large_step lv xv c) acts l_pristine x_init)) /\
+  Forall (fun r => takes_external r \/ external_popped r ->
+            quiescent_at (fast_esel c) r /\ fast_none_enabled c (l_cfg (r_l r)) (x_store (r_x r)))
+         (steps_of (elog c (fast_step xv c) acts l_pristine x_init)).
+Proof.
+  split.
+  - pose proof (Forall_and _ _ _ (large_external_only_when_quiescent lv xv c acts)
+                  (pop_is_dequeue c (large_step lv xv c) acts l_pristine x_init (large_step_takes_head lv xv c))) as H.
+    eapply Forall_impl; [|exact H]. intros r [H1 H2] [Ht|Hp]; auto.
+  - pose proof (Forall_and _ _ _ (fast_external_only_when_quiescent xv c acts)
+                  (pop_is_dequeue c (fast_step xv c) acts l_pristine x_init (fast_step_takes_head xv c))) as H.
+    eapply Forall_impl; [|exact H]. intros r [H1 H2] [Ht|Hp]; auto.
+Qed.
+
+Lemma engine_internal_fifo_lemma (lv : lg_variant) (xv : ex_variant) (c : fchart) (acts : list eact) :
+  (let log := elog c (large_step lv xv c) acts l_pristine x_init in
+   all_int_taken log ++ x_iq (snd (efinal c (large_step lv xv c) acts l_pristine x_init)) = all_int_raised log) /\
+  (let log := elog c (fast_step xv c) acts l_pristine x_init in
+   all_int_taken log ++ x_iq (snd (efinal c (fast_step xv c) acts l_pristine x_init)) = all_int_raised log).
+Proof. split; [apply (large_queues_fifo lv xv c acts) | apply (fast_queues_fifo xv c acts)]. Qed.
+
+Lemma engine_external_fifo_lemma (lv : lg_variant) (xv : ex_variant) (c : fchart) (acts : list eact) :
+  (let log := elog c (large_step lv xv c) acts l_pristine x_init in
+   all_ext_taken log ++ x_eq (snd (efinal c (large_step lv xv c) acts l_pristine x_init)) = all_ext_arrived log) /\
+  (let log := elog c (fast_step xv c) acts l_pristine x_init in
+   all_ext_taken log ++ x_eq (snd (efinal c (fast_step xv c) acts l_pristine x_init)) = all_ext_arrived log).
+Proof. split; [apply (large_queues_fifo lv xv c acts) | apply (fast_queues_fifo xv c acts)]. Qed.
+
+Lemma engine_each_event_once_lemma (lv : lg_variant) (xv : ex_variant) (c : fchart) :
+  (forall l x, selection_spec xv c (large_ms0 lv xv c) (select_and_step lv xv c) (large_step lv xv c) l x /\
+               qeffect c (dequeues l x) x (snd (fst (large_step lv xv c l x)))) /\
+  (forall l x, selection_spec xv c (fast_ms0 xv c) (fselect_and_step xv c) (fast_step xv c) l x /\
+               qeffect c (dequeues l x) x (snd (fst (fast_step xv c l x)))) /\
+  (forall acts,
+     ev_of (rev (x_out (snd (efinal c (large_step lv xv c) acts l_pristine x_init)))) =
+     flat_map (fun r => deq_names (r_deq r)) (steps_of (elog c (large_step lv xv c) acts l_pristine x_init)) /\
+     ev_of (rev (x_out (snd (efinal c (fast_step xv c) acts l_pristine x_init)))) =
+     flat_map (fun r => deq_names (r_deq r)) (steps_of (elog c (fast_step xv c) acts l_pristine x_init))).
+Proof.
+  split; [|split].
+  - intros l x. split; [apply large_step_selection | apply large_step_takes_head].
+  - intros l x. split; [apply fast_step_selection | apply fast_step_takes_head].
+  - intros acts. split; [apply large_events_reported_once | apply fast_events_reported_once].
+Qed.
+
+Lemma engine_stable_once_per_macrostep_lemma (lv : lg_variant) (xv : ex_variant) (c : fchart) (acts : list eact) :
+  report_okb c = true -> raise_names_okb c = true ->
+  trace_completeb (sid_pos c) (rev (x_out (snd (efinal c (large_step lv xv c) acts l_pristine x_init)))) = true /\
+  trace_completeb (sid_pos c) (rev (x_out (snd (efinal c (fast_step xv c) acts l_pristine x_init)))) = true.
+Proof. intros H1 H2. split; [now apply large_erun_complete | now apply fast_erun_complete]. Qed.
